@@ -82,10 +82,100 @@ func genRealtime(g *gen, prop string, budget int, emit func(string)) bool {
 			g.stats["ort."+client+"."+mode]++
 			emit(fmt.Sprintf("ort %s %s %d %d", client, mode, k, rounds))
 		}
+	case "C03rt":
+		// 1..8 goroutines call Send on one tunnel at the same time; loss-free gateway
+		fixed := []string{"swrt 1 20", "swrt 2 20", "swrt 4 20", "swrt 8 10", "swrt 3 100"}
+		n := 0
+		for _, s := range fixed {
+			if n < budget {
+				emit(s)
+				n++
+			}
+		}
+		for ; n < budget; n++ {
+			s := 1 + g.r.Intn(8)
+			g.stats[fmt.Sprintf("swrt.senders%d", s)]++
+			emit(fmt.Sprintf("swrt %d %d", s, 5+g.r.Intn(60)))
+		}
 	default:
 		return false
 	}
 	return true
+}
+
+// swrt: the property itself on a real-time run with concurrent senders: every telegram whose Send
+// returned nil is on the bus exactly once; one request in flight (a new sequence number only after
+// the previous one was acknowledgeable, i.e. consecutive numbers, each with one telegram)
+func (m *mon) swrt(script, trace string) int {
+	get := func(key string) string {
+		i := strings.Index(trace, key+"=")
+		if i < 0 {
+			return ""
+		}
+		rest := trace[i+len(key)+1:]
+		if j := strings.IndexByte(rest, ' '); j >= 0 {
+			rest = rest[:j]
+		}
+		return rest
+	}
+	list := func(v string) []string {
+		v = strings.Trim(v, "[]")
+		if v == "" {
+			return nil
+		}
+		return strings.Split(v, ",")
+	}
+	if strings.HasPrefix(trace, "connect-failed") || strings.HasPrefix(trace, "bad-script") {
+		m.fail("bad-trace", trace)
+		return 0
+	}
+	bus, ok := list(get("bus")), list(get("ok"))
+	onBus := map[string]int{}
+	for _, p := range bus {
+		onBus[p]++
+	}
+	for _, p := range ok {
+		if onBus[p] == 0 {
+			m.fail("success-not-on-bus/concurrent-senders", fmt.Sprintf("Send of telegram %s returned nil but the gateway never put it on the bus (bus %v)", p, clipList(bus)))
+			break
+		}
+	}
+	for p, n := range onBus {
+		if n > 1 {
+			m.fail("telegram-on-bus-twice", fmt.Sprintf("telegram %s is on the bus %d times", p, n))
+			break
+		}
+	}
+	// one request in flight: a sequence number is never used for two different telegrams
+	bySeq := map[string]string{}
+	prevSeq := ""
+	for _, sp := range strings.Split(get("seen"), ",") {
+		kv := strings.SplitN(sp, ":", 2)
+		if len(kv) != 2 {
+			continue
+		}
+		if kv[0] != prevSeq {
+			// a new number: reuse for another telegram only after a full wrap (256 numbers later)
+			delete(bySeq, fmt.Sprint((atoi(kv[0])+128)%256))
+		}
+		if p, seen := bySeq[kv[0]]; seen && p != kv[1] {
+			m.fail("two-requests-share-a-number", fmt.Sprintf("sequence number %s carried telegram %s and telegram %s: two exchanges were open at once", kv[0], p, kv[1]))
+			break
+		}
+		bySeq[kv[0]] = kv[1]
+		prevSeq = kv[0]
+	}
+	if strings.HasSuffix(trace, " stuck") {
+		m.fail("send-never-returned", "Sends had not returned after 15 s")
+	}
+	return len(bus) + len(ok)
+}
+
+func clipList(l []string) []string {
+	if len(l) > 30 {
+		return append(append([]string{}, l[:30]...), "…")
+	}
+	return l
 }
 
 // monitorRRT: the property itself on a real-time trace of a contended router
